@@ -29,7 +29,9 @@ type slCfg struct {
 	Place string `json:"place"`
 }
 
-func (c slCfg) String() string { return fmt.Sprintf("n=%d,a=%d,m=%d,%s/%s", c.N, c.A, c.M, c.Pred, c.Place) }
+func (c slCfg) String() string {
+	return fmt.Sprintf("n=%d,a=%d,m=%d,%s/%s", c.N, c.A, c.M, c.Pred, c.Place)
+}
 
 type slOp struct {
 	Op string `json:"op"` // Next | Save | Load | Drain | Adv | Take
